@@ -351,6 +351,9 @@ func (w *c17World) arm(f *c17Fault) {
 		if f.mode == 10 && (ev.Kind != "write" || strings.HasSuffix(ev.Path, "tmp.data")) {
 			return simrt.IOAction{}
 		}
+		if f.mode == 11 && (ev.Kind != "write" || !strings.HasSuffix(ev.Path, "tmp.data")) {
+			return simrt.IOAction{} // 11: the write-ahead append inside TrieDatabase.Commit itself fails
+		}
 		f.seen++
 		if f.seen-1 != f.k {
 			return simrt.IOAction{}
@@ -358,7 +361,7 @@ func (w *c17World) arm(f *c17Fault) {
 		f.fired = true
 		f.what = fmt.Sprintf("%s %s len=%d", ev.Kind, ev.Path, ev.Len)
 		switch f.mode {
-		case 10:
+		case 10, 11:
 			return simrt.IOAction{Err: simos.ErrInjected}
 		case 1:
 			return simrt.IOAction{CrashAfter: true}
@@ -569,6 +572,22 @@ func c17SimConfigInner(c *Ctx) simrt.Config {
 }
 
 func c17Scenario(c *Ctx) {
+	if c.Var == "account" {
+		// the four per-account tries behind chain/account/account.go: the journal world of C07 (setters of every
+		// kind on a real account.Manager over the real store), judged here only by "saved and reopened by root =
+		// what was held when saving"; C07's own clauses are not reported under C17
+		c.Var = "paths"
+		c07Unit(c)
+		c.Var = "account"
+		var keep []Violation
+		for _, v := range c.Violations {
+			if strings.HasPrefix(v.Sig, "C17/") {
+				keep = append(keep, v)
+			}
+		}
+		c.Violations = keep
+		return
+	}
 	if c.Var == "merkle" {
 		// inside a task, so that a panic of the merkle code is a violation and not a harness error
 		if t := c.W.Do(c17Tag, "merkle", func() { c17Merkle(c) }); !t.Finished && t.Panic == nil && !c.Failed() {
@@ -857,6 +876,45 @@ func (w *c17World) opDBCommit(lab, flab string, crashVariant bool) {
 				w.cleanRestart(false)
 			}
 		}
+	case !crashVariant && c.Chance("fgerr", 1, 8):
+		// the disk refuses the write-ahead append of TrieDatabase.Commit (full disk, EIO): Commit fails. Nothing is
+		// durable then, but nothing may be lost either: the root stays readable through the same TrieDatabase and a
+		// second Commit, after the disk recovered, makes it durable.
+		f := &c17Fault{k: 0, mode: 11, fgDone: true}
+		w.arm(f)
+		var err error
+		ok := w.do("dbcommit-ioerror", func() { err = w.tdb.Commit(root, false) })
+		w.disarm()
+		if !ok && !c.Failed() {
+			w.fail("C17/stuck/dbcommit", "TrieDatabase.Commit did not return after an I/O error")
+		}
+		if c.Failed() {
+			return
+		}
+		if !f.fired || err == nil {
+			// nothing to write, or the store absorbed the error: an ordinary commit
+			if err == nil {
+				w.durable[root] = snap
+				w.lastDur, w.hasDur = root, true
+			}
+			return
+		}
+		c.Fault("ioerror.foreground-commit")
+		w.logf("I/O error injected into TrieDatabase.Commit(%x) itself (%s): %v", root[:6], f.what, err)
+		w.do("after-failed-commit", func() {
+			t, oerr := w.open(root, w.tdb)
+			if oerr != nil {
+				if len(snap) != 0 {
+					w.fail("C17/ioerror/trie-lost-after-failed-commit", "TrieDatabase.Commit(%x) failed with an I/O error (%v); afterwards the root cannot be opened through the same TrieDatabase any more: %v", root[:6], err, oerr)
+				}
+				return
+			}
+			w.checkContent(t, snap, "ioerror", fmt.Sprintf("trie at root %x read through the same TrieDatabase after its Commit failed with an I/O error", root[:6]))
+		})
+		if c.Failed() {
+			return
+		}
+		w.dbCommitRoot(root, snap, nil) // the disk works again: the retry must succeed and be durable
 	case !crashVariant && c.Chance(lab, 1, 4):
 		// Close in the same task, with the writes still queued
 		w.logf("... and Close in the same task; reopen")
@@ -1127,7 +1185,7 @@ func c17Merkle(c *Ctx) {
 func init() {
 	Register(&PropDef{
 		ID:        "C17",
-		Variants:  []string{"secure", "plain", "crash", "secure", "plain", "crash", "merkle"},
+		Variants:  []string{"secure", "plain", "crash", "secure", "plain", "crash", "merkle", "account"},
 		SimConfig: c17SimConfig,
 		Scenario:  c17Scenario,
 		Rule: "(a) one SecureTrie or Trie (cache limit 0/1/2/120, shuffled or sorted map order inside the TrieDatabase) over the real TrieDatabase on the real BeansDB: " +
